@@ -1,10 +1,10 @@
-SPECIFICATION Spec
+SPECIFICATION MCSpec
 CONSTANTS
   MaxOps = 2
-  MaxPasses = 2
-  Ops = {"add", "mul", "neg"}
+  MaxPasses = 1
+  Ops = {"add", "mul"}
   Guard = TRUE
-  LeafKind = "scalar"
+  LeafKind = "bc"
   Variants = {1, 2}
 INVARIANTS NoResidue CntNonNeg EvalOnce EvalComplete EvalAll PassRefinesAbs GradShape
 PROPERTY Immutable
